@@ -1,5 +1,5 @@
 """Random scenario generator for the session machine (shared by C04–C07, C11)."""
-from sess_common import SoupCodec, ServerCodec, cut_stream, REJECT_N
+from sess_common import SoupCodec, ServerCodec, FixCodec, cut_stream, REJECT_N
 
 CB_BEHS = ['ret', ('await', 0), ('await', 1), ('await', 2), 'close', 'iclose', ('sleep', 0), ('sleep', 2), ('sleep', 4)]
 MSG_BEHS = ['ret', 'ret', ('await', 0), ('await', 1), ('await', 3), 'close', 'iclose', 'raise', ('sleep', 0), ('sleep', 3)]
@@ -28,7 +28,8 @@ def gap(rng, hb):
 
 def gen_script(rng, cfg, hb=0.004, focus=None):
     """focus: None | 'close' | 'deliver' | 'hostile' | 'login' — biases what the script contains"""
-    codec = SoupCodec()
+    is_fix = cfg.get('kind') == 'fix-client'
+    codec = FixCodec() if is_fix else SoupCodec()
     script = [('connect',)]
     next_msg = [1]
     users = [1]
@@ -84,7 +85,18 @@ def gen_script(rng, cfg, hb=0.004, focus=None):
         elif rng.random() < 0.5:
             script.append(('eof',))
             stream_dead[0] = True
-        if focus == 'login' and rng.random() < 0.25 and not reply and not tail:
+        if focus == 'login' and (reply or tail) and not stream_dead[0] and rng.random() < 0.35:
+            # the peer disconnects — or the caller gives up — in the very loop turns in which the reply travels from the reader to
+            # login(): `await_put` continues in the turn after the reader queued the reply (ahead of / behind the receive helper it
+            # woke), then 0..4 more turns.  One turn decides between "closing task scheduled, not yet run" (is_active() false,
+            # is_closed() false), "already closed" and "login() has returned".
+            script += [('await_put', rng.choice(['before', 'after'])), ('turns', rng.randint(0, 4))]
+            if rng.random() < 0.7:
+                script.append(('eof',))
+                stream_dead[0] = True
+            else:
+                script.append(('cancel', u))
+        elif focus == 'login' and rng.random() < 0.25 and not reply and not tail:
             # the caller gives up while the reply is outstanding
             script += gap(rng, hb) + [('cancel', u)]
         elif focus == 'login' and rng.random() < 0.3 and (reply or tail):
@@ -118,7 +130,12 @@ def gen_script(rng, cfg, hb=0.004, focus=None):
         elif c < 0.63:
             script.append(('recvnw', new_user()))
         elif c < 0.68:
-            script.append(('send',))
+            if not is_fix:
+                script.append(('send',))
+            elif do_login:
+                # a FIX session can only send once login() has run its first statements (it initialises the sequence counter): let
+                # the login task start first (API precondition, not part of any property)
+                script += [('turns', 1), ('send',)]
         elif focus != 'deliver' and closes < 3:
             closes += 1
             k = rng.random()
@@ -127,7 +144,7 @@ def gen_script(rng, cfg, hb=0.004, focus=None):
             elif k < 0.5:
                 script.append(('iclose',))
             elif k < 0.65:
-                script.append(('logout',))
+                script.append(('iclose',) if is_fix else ('logout',))      # FixSession has no logout() call
             elif k < 0.85:
                 script.append(('eof',))
                 stream_dead[0] = True
@@ -141,6 +158,30 @@ def gen_script(rng, cfg, hb=0.004, focus=None):
     return script
 
 
+
+
+def login_window_cases():
+    """C11, every run: the hand-over window of the login reply, exhaustively.  For soup and FIX client sessions x pull / callback mode x
+    acceptance alone / acceptance followed by a data frame in the same segment x a peer disconnect (`eof`) or a caller cancel placed in
+    the loop turn after the reader queued the reply — ahead of or behind the receive helper — plus 0..4 further turns.  This spans,
+    turn by turn: reply queued but not yet taken, taken by the helper but login() not yet resumed (closing task scheduled, not yet
+    run: is_active() false, is_closed() false), close already run, login() already returned."""
+    import random
+    out = []
+    for kind in ('soup-client', 'fix-client'):
+        codec = FixCodec() if kind == 'fix-client' else SoupCodec()
+        for mode in ('pull', 'callback'):
+            for tail in (False, True):
+                for where in ('before', 'after'):
+                    for k in range(5):
+                        for trig in ('eof', 'cancel'):
+                            cfg = dict(kind=kind, mode=mode, has_cb=True, cb_beh='ret', default_beh='ret', msg_beh={})
+                            toks = [('msg', 0)] + ([('msg', 1)] if tail else [])
+                            script = [('connect',), ('login', 2), ('turns', 2)]
+                            script += cut_stream(toks, codec, random.Random(0), 'whole')
+                            script += [('await_put', where), ('turns', k), ('eof',) if trig == 'eof' else ('cancel', 2)]
+                            out.append((cfg, script))
+    return out
 
 
 # ------------------------------------------------------------------ extended scenarios (oracle only, not replayed through the model)
